@@ -43,7 +43,7 @@ func guardSignature(p *core.Prog, cl *ssa.Function) []string {
 			if len(ret.Results) != 1 {
 				continue
 			}
-			g, ok := loadedGlobal(ret.Results[0])
+			g, ok := loadedGlobal(unspill(ret.Results[0]))
 			if !ok {
 				continue
 			}
@@ -248,6 +248,7 @@ func c20(r *core.Run) {
 	r.Rule("G1", "guards: add rejects len<idx, remove rejects len<=idx, create rejects an existing or defaulted resource, change and remove reject a missing resource without default - each by returning its sentinel from the closure on an edge that does not reach the write", 10)
 	r.Rule("S1", "sibling agreement: the two middleware copies have the same guard -> sentinel sets in each of the five apply handlers", 5)
 	r.Rule("I1", "default stays immutable: the handler's default bytes (served for every resource that is not stored yet) are never a destination: the buffer handed to Item.ValueCopy is nil or freshly made, never (a variable that may hold) the default field, and no element of the default field is stored to", 2)
+	r.Rule("I2", "written bytes are owned until commit: the value handed to Txn.Set is never backed by an object taken from a sync.Pool (followed through re-slicing, conversions, bytes.* helpers and Buffer.Bytes): the transaction commits after the update closure - and its deferred Put - has returned", 5)
 	r.Rule("D1", "old values: the change handler treats a property as absent only on the not-present edge of a comma-ok lookup on the stored model and records the looked-up value or the delete action as old value; the delete handler returns the bytes read in the same transaction before the delete", 6)
 
 	want := map[string][]string{
@@ -355,7 +356,7 @@ func c20(r *core.Run) {
 			// sentinel returns never reach the write (they are returns) and the guard's If dominates the write
 			if wr != nil {
 				for _, ret := range core.Returns(cl) {
-					if _, ok := loadedGlobal(ret.Results[0]); !ok {
+					if _, ok := loadedGlobal(unspill(ret.Results[0])); !ok {
 						continue
 					}
 					for _, ed := range dominatingEdges(ret) {
@@ -429,6 +430,18 @@ func c20(r *core.Run) {
 						}
 					}
 				}
+			}
+		}
+	}
+	// ---- I2: bytes handed to a transaction stay untouched until it commits --------------
+	for _, mp := range mwPkgs {
+		for _, fn := range p.FuncsOfPkg(mp.rel) {
+			for _, c := range core.Calls(fn) {
+				if !isBadgerCall(c, "Txn", "Set") || len(c.Common().Args) < 3 {
+					continue
+				}
+				src := pooledSource(c.Common().Args[2], 0)
+				r.Check(src == "", "I2", core.FuncName(fn), "stored-bytes-are-not-pooled", p.InstrPos(c), "the value handed to the transaction is not backed by a pooled buffer", "the value handed to Txn.Set is backed by "+src+": BadgerDB keeps the slice until the transaction commits - after the closure has returned -, so a buffer that goes back to a pool (or is reused) when the closure ends can be overwritten by another resource's event first, and that resource's bytes are committed under this key")
 			}
 		}
 	}
@@ -778,7 +791,7 @@ func c20(r *core.Run) {
 }
 
 func condShapeOfReturn(ret *ssa.Return) string {
-	g, _ := loadedGlobal(ret.Results[0])
+	g, _ := loadedGlobal(unspill(ret.Results[0]))
 	eds := dominatingEdges(ret)
 	if len(eds) == 0 {
 		return g
@@ -893,4 +906,72 @@ func mayHoldField(v ssa.Value, depth int) (bool, string) {
 		}
 	}
 	return false, ""
+}
+
+// unspill: in a function with a defer the returned values travel through
+// result cells (store, run defers, load, return): the value behind a returned
+// load of such a cell is the one stored last in the same block.
+func unspill(v ssa.Value) ssa.Value {
+	if u, ok := v.(*ssa.UnOp); ok && u.Op == token.MUL {
+		if _, isAl := u.X.(*ssa.Alloc); isAl {
+			if st := lastStoreInBlock(u); st != nil {
+				return st
+			}
+		}
+	}
+	return v
+}
+
+// pooledSource: v is (a view of) memory owned by an object obtained from a
+// sync.Pool; returns a description, or "" if not.
+func pooledSource(v ssa.Value, depth int) string {
+	if depth > 8 || v == nil {
+		return ""
+	}
+	switch x := v.(type) {
+	case *ssa.Slice:
+		return pooledSource(x.X, depth+1)
+	case *ssa.Convert:
+		return pooledSource(x.X, depth+1)
+	case *ssa.ChangeType:
+		return pooledSource(x.X, depth+1)
+	case *ssa.TypeAssert:
+		return pooledSource(x.X, depth+1)
+	case *ssa.Extract:
+		return pooledSource(x.Tuple, depth+1)
+	case *ssa.Phi:
+		for _, e := range x.Edges {
+			if e != v {
+				if s := pooledSource(e, depth+1); s != "" {
+					return s
+				}
+			}
+		}
+	case *ssa.UnOp:
+		if x.Op == token.MUL {
+			if al, ok := x.X.(*ssa.Alloc); ok && al.Referrers() != nil {
+				for _, rf := range *al.Referrers() {
+					if st, ok := rf.(*ssa.Store); ok && st.Addr == ssa.Value(al) {
+						if s := pooledSource(st.Val, depth+1); s != "" {
+							return s
+						}
+					}
+				}
+			}
+		}
+	case *ssa.Call:
+		name := core.CalleeName(x)
+		if name == "(*sync.Pool).Get" {
+			return "an object taken from a sync.Pool"
+		}
+		// views: bytes.* helpers return a sub-slice of their argument, Buffer methods a view of the receiver
+		if strings.HasPrefix(name, "bytes.") || strings.HasPrefix(name, "(*bytes.Buffer).") {
+			for _, a := range x.Common().Args {
+				if s := pooledSource(a, depth+1); s != "" {
+					return s
+				}
+			}
+		}
+	}
+	return ""
 }
